@@ -140,6 +140,29 @@ def law_case(case, res):
         want = dispersion.delay_s(dmx, hz(arr[i]), fx[3])
         if abs(sec(d[i]) - want) > tol(hz(arr[i]), fx[3]):
             res.violation("time_delay|array value", f"array f element {i}: {float(sec(d[i]))} vs {float(want)}", case, {"i": i})
+    # history on ONE DM object: use it, update it in place, use it again == a fresh DM of the new value
+    dmh = pb.DM(dv, u.Unit(du))
+    _ = (dmh.time_delay(fq[0], fq[3]), dmh.sample_delay(fq[1], fq[2], 1 * u.MHz))
+    steps = (("*= -2", lambda d_: d_.__imul__(-2)), ("+= 1.5 unit", lambda d_: d_.__iadd__(1.5 * d_.unit)),
+             ("[...] = 0.25 unit", lambda d_: d_.__setitem__(..., 0.25 * d_.unit)), ("/= 4", lambda d_: d_.__itruediv__(4)))
+    for name, fn in steps:
+        try:
+            r_ = fn(dmh)
+            if r_ is not None:
+                dmh = r_
+            fresh = pb.DM(dmh.value.copy() if hasattr(dmh.value, "copy") else dmh.value, dmh.unit)
+            pairs = [(dmh.time_delay(a, b_), fresh.time_delay(a, b_)) for a in fq[:3] for b_ in fq[3:5]]
+            pairs += [(dmh.sample_delay(fq[0], fq[4], 1 * u.MHz), fresh.sample_delay(fq[0], fq[4], 1 * u.MHz))]
+        except Exception as e:
+            res.violation("time_delay|DM updated in place raised", f"{name}: {type(e).__name__}: {e}", case, {"step": name})
+            break
+        res.transitions += 2 * len(pairs)
+        if type(dmh) is not type(fresh) or any(np.any(np.asarray(x_) != np.asarray(y_)) for x_, y_ in pairs):
+            res.violation("time_delay|stale after the DM object was updated in place", f"after '{name}' the object (now {dmh!r}) gives "
+                          f"delays different from a fresh DM of the same value", case, {"step": name})
+            break
+    else:
+        res.hits["DM object updated in place"] += 1
     if du != "pc/cm3":
         res.hits["DM in a non-default unit"] += 1
     if dv < 0:
@@ -183,6 +206,32 @@ def incoh_case(case, res):
                     continue
                 r = [round_half_even(d) for d in exact]
                 one_incoh(res, case, z, zdata, dm, ref, r, N, T0, srx, sub)
+    # history on ONE signal: use it, re-assign sample_rate, dedisperse again == the same call on a freshly built signal
+    if cls in ("RadioSignal", "IntensitySignal", "FullStokesSignal") and N >= 6:
+        z0 = factory.make_encoded(cls, N, nchan=nchan, extra=extra, rate_name="1kHz", start_name=case["start"], fc=1.4 * u.GHz,
+                                  align=case["align"], chan_bw=10 * u.MHz)
+        obj = type(z0).like(z0)
+        us_ = dispersion.delay_samples(1, hz(z0.min_freq), hz(z0.max_freq), hz(z0.sample_rate))
+        dmq = pb.DM(float(F(23, 10) / us_)) if us_ else pb.DM(1.0)
+        _ = (pb.incoherent_dedispersion(obj, dmq, ref_freq=obj.max_freq), obj.dt, obj.time_length)
+        for factor in (0.5, 4):
+            obj.sample_rate = obj.sample_rate * factor
+            fresh = type(z0).like(z0, sample_rate=obj.sample_rate)
+            try:
+                a, b_ = (pb.incoherent_dedispersion(o_, dmq, ref_freq=o_.max_freq) for o_ in (obj, fresh))
+            except Exception as e:
+                res.violation("incoherent|assignment history raised", f"{type(e).__name__}: {e}", case, {"factor": factor})
+                break
+            res.transitions += 2
+            same_t = (a.start_time is None and b_.start_time is None) or (a.start_time is not None and b_.start_time is not None
+                                                                          and T(a.start_time) == T(b_.start_time))
+            if a.shape != b_.shape or not np.array_equal(np.asarray(a.data), np.asarray(b_.data)) or not same_t:
+                res.violation("incoherent|assignment history|stale sample spacing", f"after use and assigning sample_rate x {factor}, "
+                              f"the result (shape {a.shape}, start {a.start_time}) differs from that of a freshly built signal "
+                              f"(shape {b_.shape}, start {b_.start_time})", case, {"factor": factor})
+                break
+        else:
+            res.hits["sample_rate assigned between dedispersions"] += 1
     # Dask-backed twin, channels chunked unequally: same samples, same metadata (the per-sample tracing above is the reference)
     if nchan >= 3 and N >= 6:
         import dask.array as da
@@ -310,7 +359,7 @@ def main(argv=None):
         required_hits=["delay law triples", "infinite reference frequency", "DM in a non-default unit", "negative DM", "every returned sample traced",
                        "start_time moved", "no start time (relative alignment only)",
                        "channels realigned by different delays", "delays of both signs (reference inside band)",
-                       "all delays one sign (reference outside band)", "no valid instant in span: raise/empty accepted", "dask-backed input with unequal channel chunks"],
+                       "all delays one sign (reference outside band)", "no valid instant in span: raise/empty accepted", "dask-backed input with unequal channel chunks", "DM object updated in place", "sample_rate assigned between dedispersions"],
         assumptions=["K = 1/2.41e-4 s MHz^2 cm^3/pc exactly as stated; float evaluation budget 16 ulp of the larger term",
                      "completeness is weak by design: any sound window is accepted (the statement only forbids out-of-range sources)",
                      "labels whose exact delay is within 1e-9 of a half-integer are unconstrained"],
